@@ -393,7 +393,7 @@ def key_lit(text, issues):
 
 
 def extract_file(name, text, out):
-    L = Lines(text)
+    L = Lines(text, "#")
     G = out["issues"]
     for h in (r"# Code generated by fin-protoc\. DO NOT EDIT\.", r"from bytebuf import ByteBuf", r"from checksum import create_checksum_service",
               r"from message_factory import MessageFactory", r"from codec import \*"):
